@@ -134,6 +134,36 @@ def absolute(x):
     return abs(asarray(x))
 
 
+def square(x):
+    a = asarray(x)
+    return binop(a, a, "mul")
+
+
+def negative(x):
+    return -asarray(x)
+
+
+def positive(x):
+    return +asarray(x)
+
+
+def reciprocal(x):
+    a = asarray(x)
+    if a.d.kind != "f":
+        raise HarnessError("numpy.reciprocal of integers")
+    return binop(1.0, a, "div") if False else binop(snp.ones(a.o.shape, dtype=a.d) if a.n is None else a * 0 + 1, a, "div")
+
+
+def sign(x):
+    a = asarray(x)
+    pos = binop(a, 0, "gt")
+    neg = binop(a, 0, "lt")
+    r = where(pos, 1, where(neg, -1, 0))
+    if a.d.kind == "f":
+        r = where(isnan(a), float("nan"), r.astype(a.d))
+    return r.astype(a.d)
+
+
 class LazyBincount:
     """bincount of symbolic magnitudes (C01): a sparse view -- positions are the distinct
     magnitudes (solver-ordered), counts are concrete.  Supports what from_array consumes."""
@@ -846,6 +876,30 @@ class ndarray_type(metaclass=_NdMeta):
     pass
 
 
+def _with_out(fn):
+    """ufunc-style ``out=`` argument: the result is stored into the given array (cast to its dtype, recorded as a
+    write for the footprint analysis) and that array is returned.  ``where=`` is not modelled."""
+    def call(*a, out=None, where=True, **k):
+        if where is not True:
+            raise HarnessError("ufunc where= argument is not modelled")
+        r = fn(*a, **k)
+        if out is None:
+            return r
+        if isinstance(out, tuple):
+            if len(out) != 1:
+                raise HarnessError("ufunc out= tuple of %d" % len(out))
+            out = out[0]
+        if not isinstance(out, ndarray):
+            raise TypeError("return arrays must be of ArrayType")
+        rs = r.o.shape if isinstance(r, ndarray) else ()
+        if tuple(rnp.broadcast_shapes(rs, out.o.shape)) != tuple(out.o.shape):
+            raise ValueError("non-broadcastable output operand with shape %r doesn't match the broadcast shape" % (out.o.shape,))
+        out[...] = r
+        return out
+    call.__name__ = getattr(fn, "__name__", "ufunc")
+    return call
+
+
 class NumpyShim:
     """The object catii's modules see as ``numpy``."""
 
@@ -861,8 +915,10 @@ class NumpyShim:
         for _n, _op in (("add", "add"), ("subtract", "sub"), ("multiply", "mul"), ("divide", "div"), ("true_divide", "div"),
                         ("equal", "eq"), ("not_equal", "ne"), ("less", "lt"), ("less_equal", "le"), ("greater", "gt"),
                         ("greater_equal", "ge"), ("floor_divide", "floordiv"), ("mod", "mod"), ("remainder", "mod"), ("power", "pow")):
-            setattr(self, _n, (lambda o: (lambda a, b: binop(asarray(a), b, o)))(_op))
-        self.abs = absolute
+            setattr(self, _n, _with_out((lambda o: (lambda a, b, dtype=None: binop(asarray(a), b, o, out_dtype=None if dtype is None else rnp.dtype(dtype))))(_op)))
+        for _n in ("square", "negative", "positive", "reciprocal", "sign", "sqrt", "absolute", "logical_not", "logical_and", "logical_or", "maximum", "minimum", "isnan", "cumsum"):
+            setattr(self, _n, _with_out(g[_n]))
+        self.abs = self.absolute
         self.ndarray = ndarray_type
         for name in "asarray array zeros ones empty full arange".split():
             setattr(self, name, getattr(snp, name))
